@@ -96,6 +96,10 @@ func (t *T) SetBeforeEvaluateCode(code string) {
 }
 
 func (t *T) GetBeforeEvaluateCode() string {
+	if t == nil {
+		return ""
+	}
+
 	return t.beforeEvaluateCode
 }
 
